@@ -297,4 +297,270 @@ theorem canon_eq_imp_renaming_single (k : Nat) (t1 t2 : Tree) (d1 d2 : Nat) (v1 
   obtain ⟨v2, h2⟩ := single_name_transfer k t1 t2 d1 d2 v1 hT ho hd1 hw1 hd2
   exact ⟨v2, eq_mapVars_of_canon_eq t1 t2 {} {} v2 hT h2⟩
 
+/-! ### the duplicate counters are bounded by the number of occurrences -/
+
+/-- all occurrences of sub-formulae below (and including) a node, each with the domains of the quantifiers open above
+it — exactly the nodes `mark_duplicates` may visit -/
+def occs : Tree → DomMap → List (Tree × DomMap)
+  | .atom a, d => [(.atom a, d)]
+  | .un o c, d => (.un o c, d) :: occs c d
+  | .bin o l r, d => (.bin o l r, d) :: (occs l d ++ occs r d)
+  | .hyb o v dom c, d => (.hyb o v dom c, d) :: occs c (if o = .jump then d else domInsert v dom d)
+
+def occAll (l : List (Tree × DomMap)) : List (Tree × DomMap) := l.flatMap (fun e => occs e.1 e.2)
+
+/-- number of occurrences carrying the key -/
+def cnt (key : Key) (l : List (Tree × DomMap)) : Int := (l.countP (fun e => (keyOf e.1 e.2).1 == key) : Nat)
+
+def dupVal (dups : DupMap) (key : Key) : Int := (dupGet key dups).getD 0
+
+theorem occs_eq (t : Tree) (d : DomMap) : occs t d = (t, d) :: occAll (childrenWithDoms t d) := by
+  cases t with
+  | atom a => simp [occs, childrenWithDoms, occAll]
+  | un o c => simp [occs, childrenWithDoms, occAll]
+  | bin o l r => simp [occs, childrenWithDoms, occAll]
+  | hyb o v dom c =>
+    by_cases hj : o = .jump <;> simp [occs, childrenWithDoms, occAll, hj]
+
+theorem cnt_append (key : Key) (a b : List (Tree × DomMap)) : cnt key (a ++ b) = cnt key a + cnt key b := by
+  simp [cnt, List.countP_append]
+
+theorem occAll_append (a b : List (Tree × DomMap)) : occAll (a ++ b) = occAll a ++ occAll b := by
+  simp [occAll, List.flatMap_append]
+
+theorem occAll_cons (e : Tree × DomMap) (l : List (Tree × DomMap)) : occAll (e :: l) = occs e.1 e.2 ++ occAll l := by
+  simp [occAll]
+
+theorem cnt_nonneg (key : Key) (l : List (Tree × DomMap)) : 0 ≤ cnt key l := by simp [cnt]
+
+theorem cnt_cons (key : Key) (e : Tree × DomMap) (l : List (Tree × DomMap)) :
+    cnt key (e :: l) = (if (keyOf e.1 e.2).1 = key then 1 else 0) + cnt key l := by
+  simp only [cnt, List.countP_cons]
+  by_cases h : (keyOf e.1 e.2).1 = key
+  · simp [h]; omega
+  · have : ((keyOf e.1 e.2).1 == key) = false := beq_eq_false_iff_ne.mpr h
+    simp [h, this]
+
+/-- the occurrences of a list split by a predicate -/
+theorem cnt_occAll_filter (key : Key) (p : Tree × DomMap → Bool) (l : List (Tree × DomMap)) :
+    cnt key (occAll l) = cnt key (occAll (l.filter p)) + cnt key (occAll (l.filter (fun e => !p e))) := by
+  induction l with
+  | nil => simp [occAll, cnt]
+  | cons e l ih =>
+    simp only [List.filter_cons]
+    by_cases hp : p e = true
+    · simp only [hp, if_true, Bool.not_true, Bool.false_eq_true, if_false, occAll_cons, cnt_append, ih]; omega
+    · have hpf : p e = false := by simpa using hp
+      simp only [hpf, Bool.false_eq_true, if_false, Bool.not_false, if_true, occAll_cons, cnt_append, ih]; omega
+
+theorem dupGet_nil (k : Key) : dupGet k [] = none := rfl
+
+theorem dupVal_cons (k k0 : Key) (m : Int) (d : DupMap) :
+    dupVal ((k0, m) :: d) k = if k = k0 then m else dupVal d k := by
+  unfold dupVal
+  rw [dupGet_cons]
+  split <;> simp
+
+theorem dupVal_dupIncr (k k' : Key) : ∀ (d : DupMap), dupVal (dupIncr k d) k' = dupVal d k' + (if k' = k then 1 else 0) := by
+  intro d
+  induction d with
+  | nil =>
+    simp only [dupIncr, dupVal_cons]
+    by_cases h : k' = k
+    · simp [h, dupVal, dupGet_nil]
+    · simp [h, dupVal, dupGet_nil]
+  | cons e d ih =>
+    obtain ⟨k0, m0⟩ := e
+    simp only [dupIncr]
+    by_cases hk : k = k0
+    · subst hk
+      simp only [if_true, dupVal_cons]
+      by_cases hk' : k' = k <;> simp [hk']
+    · simp only [hk, if_false, dupVal_cons]
+      by_cases hk' : k' = k0
+      · subst hk'
+        have : ¬ k' = k := fun h => hk h.symm
+        simp [this]
+      · simp only [hk', if_false]
+        exact ih
+
+def ind (seen : List Key) (dups : DupMap) (key : Key) : Int := if key ∈ seen ∨ 0 < dupVal dups key then 1 else 0
+
+theorem cnt_occs_self (key : Key) (t : Tree) (doms : DomMap) :
+    cnt key (occs t doms) = (if (keyOf t doms).1 = key then 1 else 0) + cnt key (occAll (childrenWithDoms t doms)) := by
+  rw [occs_eq, cnt_cons]
+
+theorem processLevel_cnt (key : Key) (T restOcc : Int) : ∀ (cur : List (Tree × DomMap)) (seen : List Key) (dups : DupMap)
+    (kids : List (Tree × DomMap)),
+    dupVal dups key + cnt key (occAll cur) + cnt key (occAll kids) + restOcc + ind seen dups key ≤ T →
+    dupVal (processLevel cur seen dups kids).1 key + cnt key (occAll (processLevel cur seen dups kids).2) + restOcc +
+      (if 0 < dupVal (processLevel cur seen dups kids).1 key then 1 else 0) ≤ T := by
+  intro cur
+  induction cur with
+  | nil =>
+    intro seen dups kids h
+    simp only [processLevel]
+    have h0 : cnt key (occAll []) = 0 := by simp [occAll, cnt]
+    have : (if 0 < dupVal dups key then (1 : Int) else 0) ≤ ind seen dups key := by
+      unfold ind
+      by_cases hd : 0 < dupVal dups key
+      · simp [hd]
+      · simp only [hd, if_false]; split <;> omega
+    omega
+  | cons e cur ih =>
+    intro seen dups kids h
+    obtain ⟨t, doms⟩ := e
+    rw [occAll_cons, cnt_append, cnt_occs_self] at h
+    dsimp only at h
+    have hc := cnt_nonneg key (occAll (childrenWithDoms t doms))
+    simp only [processLevel]
+    by_cases hterm : (t.isTerminal && !t.isWild) = true
+    · simp only [hterm, if_true]
+      apply ih
+      split at h <;> omega
+    · simp only [hterm, if_false, Bool.false_eq_true]
+      cases hkey : keyOf t doms with
+      | mk key0 ren =>
+        simp only [hkey] at h ⊢
+        by_cases hdup : (decide (ren.length ≤ 1) && seen.contains key0) = true
+        · simp only [hdup, if_true]
+          apply ih
+          have hs : key0 ∈ seen := by simp at hdup; exact hdup.2
+          rw [dupVal_dupIncr]
+          have hind : ind seen (dupIncr key0 dups) key = ind seen dups key := by
+            unfold ind
+            rw [dupVal_dupIncr]
+            by_cases hk : key = key0
+            · subst hk; simp [hs]
+            · simp [hk]
+          rw [hind]
+          by_cases hk : key = key0
+          · subst hk; simp only [if_true] at h ⊢; omega
+          · have hk' : ¬ key0 = key := fun hh => hk hh.symm
+            simp only [hk, hk', if_false] at h ⊢; omega
+        · simp only [hdup, if_false, Bool.false_eq_true]
+          apply ih
+          rw [occAll_append, cnt_append]
+          have hind : ind (key0 :: seen) dups key ≤ ind seen dups key + (if key0 = key then 1 else 0) := by
+            unfold ind
+            by_cases hk : key0 = key
+            · subst hk; simp; split <;> omega
+            · have hk' : ¬ key = key0 := fun hh => hk hh.symm
+              simp [hk, hk']
+          omega
+
+theorem bne_eq_not_beq (a b : Nat) : (a != b) = !(a == b) := rfl
+
+theorem markLoop_cnt (key : Key) (T : Int) : ∀ (n : Nat) (pending : List (Tree × DomMap)) (dups : DupMap),
+    dupVal dups key + cnt key (occAll pending) + (if 0 < dupVal dups key then 1 else 0) ≤ T →
+    dupVal (markLoop n pending dups) key + (if 0 < dupVal (markLoop n pending dups) key then 1 else 0) ≤ T := by
+  intro n
+  induction n with
+  | zero =>
+    intro pending dups h
+    have := cnt_nonneg key (occAll pending)
+    simp only [markLoop]; omega
+  | succ n ih =>
+    intro pending dups h
+    simp only [markLoop]
+    by_cases he : pending.isEmpty = true
+    · simp only [he, if_true]
+      have := cnt_nonneg key (occAll pending)
+      omega
+    · simp only [he, if_false, Bool.false_eq_true]
+      have hsplit := cnt_occAll_filter key (fun e => e.1.height == maxHeight pending) pending
+      have hfil : pending.filter (fun e => !(e.1.height == maxHeight pending)) =
+          pending.filter (fun e => e.1.height != maxHeight pending) := rfl
+      rw [hfil] at hsplit
+      have hp := processLevel_cnt key T (cnt key (occAll (pending.filter (fun e => e.1.height != maxHeight pending))))
+        (pending.filter (fun e => e.1.height == maxHeight pending)) [] dups [] (by
+          have h0 : cnt key (occAll []) = 0 := by simp [occAll, cnt]
+          have hi : ind [] dups key = (if 0 < dupVal dups key then 1 else 0) := by simp [ind]
+          rw [h0, hi]; omega)
+      apply ih
+      rw [occAll_append, cnt_append]
+      omega
+
+/-- stored counters are positive -/
+def AllPos (d : DupMap) : Prop := ∀ e ∈ d, 1 ≤ e.2
+
+theorem dupIncr_allPos (k : Key) : ∀ (d : DupMap), AllPos d → AllPos (dupIncr k d) := by
+  intro d
+  induction d with
+  | nil => intro _ e he; simp [dupIncr] at he; subst he; simp
+  | cons x d ih =>
+    intro h e he
+    obtain ⟨k0, m0⟩ := x
+    simp only [dupIncr] at he
+    by_cases hk : k = k0
+    · simp only [hk, if_true, List.mem_cons] at he
+      rcases he with rfl | he
+      · have := h (k0, m0) (by simp); simp at this ⊢; omega
+      · exact h e (by simp [he])
+    · simp only [hk, if_false, List.mem_cons] at he
+      rcases he with rfl | he
+      · exact h _ (by simp)
+      · exact ih (fun e he => h e (by simp [he])) e he
+
+theorem dupGet_mem {k : Key} {v : Int} : ∀ (d : DupMap), dupGet k d = some v → (k, v) ∈ d := by
+  intro d
+  induction d with
+  | nil => intro h; simp [dupGet_nil] at h
+  | cons x d ih =>
+    intro h
+    obtain ⟨k0, m0⟩ := x
+    rw [dupGet_cons] at h
+    split at h
+    · rename_i hk; cases h; simp [hk]
+    · exact List.mem_cons_of_mem _ (ih h)
+
+theorem processLevel_allPos : ∀ (cur : List (Tree × DomMap)) (seen : List Key) (dups : DupMap) (kids : List (Tree × DomMap)),
+    AllPos dups → AllPos (processLevel cur seen dups kids).1 := by
+  intro cur
+  induction cur with
+  | nil => intro _ _ _ h; exact h
+  | cons e cur ih =>
+    intro seen dups kids h
+    obtain ⟨t, doms⟩ := e
+    simp only [processLevel]
+    split
+    · exact ih _ _ _ h
+    · cases hkey : keyOf t doms with
+      | mk key0 ren =>
+        simp only
+        split
+        · exact ih _ _ _ (dupIncr_allPos key0 dups h)
+        · exact ih _ _ _ h
+
+theorem markLoop_allPos : ∀ (n : Nat) (pending : List (Tree × DomMap)) (dups : DupMap), AllPos dups →
+    AllPos (markLoop n pending dups) := by
+  intro n
+  induction n with
+  | zero => intro _ _ h; exact h
+  | succ n ih =>
+    intro pending dups h
+    simp only [markLoop]
+    split
+    · exact h
+    · exact ih _ _ (processLevel_allPos _ _ _ _ h)
+
+/-- MAIN (C09, counters): a key reported by `mark_duplicates` with counter `n` has `n ≥ 1` and is the key of at least
+`n + 1` sub-formula occurrences (same canonical text and same canonical domains) of the analysed formulae. -/
+theorem markDups_count (roots : List Tree) (key : Key) (n : Int) (h : dupGet key (markDups roots) = some n) :
+    1 ≤ n ∧ n + 1 ≤ cnt key (occAll (roots.map (fun t => (t, ([] : DomMap))))) := by
+  have hpos : 1 ≤ n := by
+    have := markLoop_allPos (maxHeight (roots.map (fun t => (t, ([] : DomMap)))) + 2) (roots.map (fun t => (t, ([] : DomMap)))) []
+      (by intro e he; simp at he)
+    exact this (key, n) (dupGet_mem _ h)
+  refine ⟨hpos, ?_⟩
+  have hc := markLoop_cnt key (cnt key (occAll (roots.map (fun t => (t, ([] : DomMap))))))
+    (maxHeight (roots.map (fun t => (t, ([] : DomMap)))) + 2) (roots.map (fun t => (t, ([] : DomMap)))) []
+    (by simp [dupVal, dupGet_nil])
+  have hv : dupVal (markDups roots) key = n := by simp [dupVal, h]
+  unfold markDups at hv
+  rw [hv] at hc
+  have : (0 : Int) < n := by omega
+  simp only [this, if_true] at hc
+  exact hc
+
 end Hctl
